@@ -432,9 +432,15 @@ func (w *shapeWalker) visit(t types.Type, sr *openapi3.SchemaRef, where string) 
 		return
 	}
 	atRoot := strings.HasPrefix(where, "components.schemas.") && !strings.ContainsAny(strings.TrimPrefix(where, "components.schemas."), ".[")
-	if nullableWrap != s.Nullable && w.mode == "C07" && !atRoot {
-		// a Nullable wrapper where the schema is not nullable (or the reverse)
-		w.r.Violation(w.rule("shape"), key+":nullable", "", fmt.Sprintf("schema nullable=%v but the Go type %s nullable-wrapper=%v: null could be written where the schema forbids it (or cannot be where it allows it)", s.Nullable, t.String(), nullableWrap))
+	if nullableWrap && !s.Nullable && w.mode == "C07" && !atRoot {
+		// a Nullable wrapper where the schema is not nullable
+		w.r.Violation(w.rule("shape"), key+":nullable", "", fmt.Sprintf("schema nullable=false but the Go type %s has a Nullable wrapper: null could be written where the schema forbids it", t.String()))
+	}
+	if !nullableWrap && s.Nullable && w.mode == "C08" && !atRoot && !isCustom(s) {
+		// the reverse: the valid document `null` has nowhere to go
+		if _, isObj := w.jp.Objects[namedName(inner)]; isObj || s.Type != "" {
+			w.r.Violation(w.rule("reader-table"), key+":nullable", "", fmt.Sprintf("schema nullable=true but the Go type %s has no Nullable wrapper: the valid document null is rejected (objects: required keys reported missing) or silently read as the zero value", t.String()))
+		}
 	}
 	switch {
 	case len(s.OneOf) > 0:
@@ -690,6 +696,13 @@ func (w *shapeWalker) object(t types.Type, s *openapi3.Schema, key, where string
 	} else {
 		w.r.OK(rule, key+" ("+n.Obj().Name()+")", pos, fmt.Sprintf("%d properties", len(os.props)))
 	}
+}
+
+func namedName(t types.Type) string {
+	if n, ok := types.Unalias(t).(*types.Named); ok {
+		return n.Obj().Name()
+	}
+	return ""
 }
 
 func unwrapInner(t types.Type) types.Type {
